@@ -47,6 +47,32 @@ def run(res, tier, replay):
             for mi in range(len(cabs[j].members)): sc.op("cab_extract", "c0", mi, "out%d_%d" % (j, mi), j)
         scns.append(sc); meta.append((offs, cabs, bufsz, bytes(data)))
         mlines.append("0 %s %s" % (",".join(str(o) for o in offs), bytes(data).hex()))
+    # a cabinet far inside a container larger than 2 GiB (a sparse file of the harness: zero bytes except for the cabinet): offsets
+    # relative to the cabinet stay small, the absolute ones do not
+    far = []
+    for i in range(1 if tier == "quick" else 3):
+        c = gen.cab_single(rng, nfolders=rng.choice([1, 2]), methods=[("none",), ("mszip",)]); cb = c.files["in0.cab"]
+        off = rng.choice([0x80001000, 0x7FFF8000 - 40, 0x80000000 - len(cb) // 2])
+        sc = scenario.Scn(); sc.lines.append("sparse in0.cab %d %d %s" % (off + len(cb) + rng.choice([0, 77]), off, cb.hex()))
+        sc.op("cab_new").op("cab_search", "c0", "in0.cab")
+        for mi in range(len(c.members)): sc.op("cab_extract", "c0", mi, "out0_%d" % mi, 0)
+        far.append((sc, off, c))
+    ftr = scenario.run_scenarios(exe, [x[0] for x in far], timeout_each=300)
+    nfar = 0
+    for (sc, off, c), t in zip(far, ftr):
+        res.evaluations += 1; res.nontrivial.add(("far", off)); res.count("far-offset")
+        if t.crash or t.hang:
+            if res.violation("crash/hang in search() over a container larger than 2 GiB: %s" % (t.crash or "hang")[-200:], sc.text(), key="crash"): nfar += 1
+            continue
+        so = [o for o in t.ops if o.name == "cab_search"][0]
+        found = [int(dict(x.split("=", 1) for x in l.split()[2:] if "=" in x)["base"]) for l in so.lines if l.startswith("cab ")]
+        exs = [o for o in t.ops if o.name == "cab_extract"]
+        why = None
+        if found != [off]: why = "search() over a %d-byte container found cabinets at %s, one is at %d" % (off, found, off)
+        elif len(exs) != len(c.members) or any(o.kv.get("st") != "0" or (o.out or "") != m.data.hex() for o, m in zip(exs, c.members)):
+            why = "member of the cabinet found at offset %d (beyond 2 GiB) extracts wrongly (%s)" % (off, [o.kv.get("st") for o in exs])
+        if why and res.violation(why, sc.text(), key="search-far"): nfar += 1
+    res.oblige("search: a cabinet beyond the 2 GiB mark of its container is found, listed and extracted (%d containers)" % len(far), nfar == 0)
     trs = scenario.run_scenarios(exe, scns)
     rc, mout, err = vlib.run_lines(mexe, ["find"], mlines)
     nbad = 0; ndiff = 0
